@@ -508,6 +508,9 @@ def run(rep):
     rep.extend(obs)
     if crashes:
         rep.crash = crashes[0]
+    from pgv.replayers import c02 as R02
+    for res in R02.native_history_cases():
+        rep.add_bounded(f"{P}/bounded.{res['name']}", res['ok'], res['detail'], replay={'kind': 'c02.native_history', 'name': res['name']})
     rep.shape_bounded = {'N': 2, 'what': 'data columns are object arrays of 2 symbolic rows (row count/order are frame conditions)',
                          'obligations': len(obs)}
     rep.notes.append(f"start configurations x argument tuples enumerated exhaustively per method "
